@@ -26,7 +26,7 @@ type swrExp struct {
 	Latency   int64 // origin latency of the background request in ns; -1 = never answers (until cancelled)
 	Cancel    int64 // caller context: swrNoCancel, swrCancelBefore, or cancelled this many ns after the response was returned
 	Outcome   string
-	Validator int // 0 none, 1 ETag, 2 Last-Modified, 3 both
+	Validator int // 0 none, 1 ETag, 2 Last-Modified, 3 both; +4: the stored response also says no-cache="ETag, Last-Modified"
 }
 
 const (
@@ -59,7 +59,11 @@ func (o *swrOrigin) RoundTrip(req *http.Request) (*http.Response, error) {
 			Header: h, Body: io.NopCloser(strings.NewReader(body)), ContentLength: int64(len(body)), Request: req}
 	}
 	if n == 1 {
-		h := http.Header{"Cache-Control": {"max-age=1, stale-while-revalidate=100000"}, "Date": {time.Now().UTC().Format(http.TimeFormat)}}
+		cc := "max-age=1, stale-while-revalidate=100000"
+		if o.exp.Validator&4 != 0 {
+			cc += `, no-cache="ETag, Last-Modified"` // qualified: the named fields are not replayed, the validators still validate
+		}
+		h := http.Header{"Cache-Control": {cc}, "Date": {time.Now().UTC().Format(http.TimeFormat)}}
 		if o.exp.Validator&1 != 0 {
 			h.Set("ETag", `"v1"`)
 		}
@@ -256,10 +260,10 @@ func TestSWR(t *testing.T) {
 					continue
 				}
 				outcomes := []string{"304", "200", "500", "err"}
-				vals := []int{0, 1, 2, 3}
+				vals := []int{0, 1, 2, 3, 5, 7}
 				if !thorough {
 					outcomes = []string{outcomes[g.intn(4)]}
-					vals = []int{g.intn(4)}
+					vals = []int{[]int{0, 1, 2, 3, 5, 7}[g.intn(6)]}
 				}
 				for _, oc := range outcomes {
 					for _, v := range vals {
@@ -291,7 +295,7 @@ func TestSWR(t *testing.T) {
 		case 1:
 			c = int64(g.intn(30_000))*int64(time.Millisecond) + 29
 		}
-		lines = append(lines, runSWR(t, &swrExp{Setting: s, Latency: d, Cancel: c, Outcome: g.pick("304", "200", "500", "err"), Validator: g.intn(4)}))
+		lines = append(lines, runSWR(t, &swrExp{Setting: s, Latency: d, Cancel: c, Outcome: g.pick("304", "200", "500", "err"), Validator: []int{0, 1, 2, 3, 5, 7}[g.intn(6)]}))
 	}
 	if err := writeLines(filepath.Join(out, "swr.txt"), lines); err != nil {
 		t.Fatal(err)
